@@ -169,8 +169,8 @@ def d2_rethrow(facts, rep):
             raise AnalysisBroken('execute_and_wait no longer rethrows')
         for pos, s, node, d in ts:
             ok1, w1 = every_path_passes(fn, 'entry', lambda p, e: p in lw, end=pos)
-            ok2 = bool(ld) and all(has_acquire(o['order'] or 0) for _, o in ld) and \
-                every_path_passes(fn, 'entry', lambda p, e: p in set(q for q, _ in ld), end=pos)[0]
+            acq = [(q, o) for q, o in ld if has_acquire(o['order'] or 0)]      # debug builds add relaxed assertion-only loads
+            ok2 = bool(acq) and every_path_passes(fn, 'entry', lambda p, e: p in set(q for q, _ in acq), end=pos)[0]
             rep.ob('D2', 'K4', fn, 'throw_self() is dominated by the completed wait and an acquire load of my_exception', ok1 and ok2,
                    'the exception can be rethrown while bodies of the group may still run, or is read without acquire: ' + w1,
                    ln=node['ln'])
@@ -182,7 +182,8 @@ def d2_rethrow(facts, rep):
         waits = set(p for p, s, n, d in calls(fn) if d['p'] == R1 + 'wait')
         for pos, s, node, d in ts:
             ok, wit = dominated_by_edges(fn, pos, done_edges, extra_elem=lambda p, e: p in waits)
-            ok2 = bool(ld) and all(has_acquire(o['order'] or 0) for _, o in ld)
+            acq = [(q, o) for q, o in ld if has_acquire(o['order'] or 0)]
+            ok2 = bool(acq) and every_path_passes(fn, 'entry', lambda p, e: p in set(q for q, _ in acq), end=pos)[0]
             rep.ob('D2', 'K4', fn, 'the delegated exception is rethrown only after the delegated work finished', ok and ok2,
                    'rethrow is reachable although wait_context::continue_execution() was never seen false: ' + wit, ln=node['ln'])
     rep.floor('D2', 2, 'rethrow sites')
